@@ -630,6 +630,36 @@ def for_target_program(rnd):
     return '\n'.join([lines[0]] + pre + lines[1:] + [tail]) + '\n'
 
 
+def element_key_programs():
+    """element state d[const] for every kind of constant key (str, int, float, bool, None, bytes, complex): written in
+    branches and loop bodies of a dict created in the function and read afterwards -- the element is state of the statement
+    whatever the type of the constant"""
+    keys = ["'k'", "'other'", '3', '7', '2.5', 'True', 'False', 'None', "b'k'", '1j']
+    out = []
+    n = 0
+    for i, k1 in enumerate(keys):
+        for k2 in keys[i + 1:]:
+            if eval(k1) == eval(k2) or n % 3 == 2 and False:
+                continue
+            n += 1
+            if n % 2:      # every second pair, to keep the stream short: each key still occurs with four others
+                continue
+            base = 40 * n
+            L = ['def f(a, b, c):',
+                 '    d = {%s: T(%d, a), %s: T(%d, b)}' % (k1, base + 1, k2, base + 2),
+                 '    if P(%d, a):' % (base + 3),
+                 '        d[%s] = T(%d, d[%s])' % (k1, base + 4, k1),
+                 '    else:',
+                 '        d[%s] = T(%d, d[%s])' % (k2, base + 5, k2),
+                 '    for i1 in R(%d):' % (4 * base + 3),
+                 '        if P(%d, i1):' % (base + 6),
+                 '            d[%s] = T(%d, d[%s], i1)' % (k2, base + 7, k2),
+                 '        d[%s] = T(%d, d[%s])' % (k1, base + 8, k1),
+                 '    return (d[%s], d[%s])' % (k1, k2)]
+            out.append('\n'.join(L) + '\n')
+    return out
+
+
 def jump_pair_programs():
     """pure programs with two different kinds of jump in one loop body (break + return, continue + return, ...): each lowering
     pass attaches its own flag and extra loop test to the loop and the flags become loop state; several key offsets so that the
@@ -833,7 +863,7 @@ def check(run):
     from malt.impl import api
     failures = []
     nprog = 150 if quick else 2000
-    srcs = closure_programs(rnd) + jump_pair_programs() + [gen_pure(rnd, mutation=(i % 3 == 0), global_=(i % 4 == 1)) for i in range(nprog)] + \
+    srcs = closure_programs(rnd) + jump_pair_programs() + element_key_programs() + [gen_pure(rnd, mutation=(i % 3 == 0), global_=(i % 4 == 1)) for i in range(nprog)] + \
         [for_target_program(rnd) for i in range(nprog // 4)]
     cdir = os.path.join(vlib.ROOT, 'corpus', 'C02')
     csrcs = []
